@@ -123,12 +123,13 @@ def gen_case(rng, ctx):
         lang = rng.choice(["en", "en", L])
     elif kind == "numeric":
         sep = rng.choice(["/", ".", "-"])
-        shape = rng.choice(["dmy", "dm", "my", "y", "ymd", "d", "dmy2", "ym", "j"])
+        shape = rng.choice(["dmy", "dm", "my", "y", "ymd", "d", "dmy2", "ym", "j", "wk", "isowk"])
         s = {
             "dmy": "%02d%s%02d%s%04d" % (d.day, sep, d.month, sep, d.year), "dm": "%02d%s%02d" % (d.day, sep, d.month), "my": "%02d%s%04d" % (d.month, sep, d.year),
             "y": "%04d" % d.year, "ymd": "%04d%s%02d%s%02d" % (d.year, sep, d.month, sep, d.day), "d": "%d" % d.day,
             "dmy2": "%02d%s%02d%s%02d" % (d.day, sep, d.month, sep, d.year % 100), "ym": "%04d%s%02d" % (d.year, sep, d.month),
             "j": "%03d" % rng.choice([1, 31, 59, 60, 61, 200, 213, 365]),
+            "wk": "%04d-W%02d-%d" % (d.year, int(d.strftime("%W")), int(d.strftime("%w"))), "isowk": "%04d-W%02d-%d" % (d.isocalendar()[0], d.isocalendar()[1], d.isocalendar()[2]),
         }[shape]
         present = [shape]
         if rng.random() < 0.3:
@@ -184,10 +185,10 @@ def gen_case(rng, ctx):
             fmts = [" ".join(ftoks)]
             if rng.random() < 0.3:
                 fmts.insert(0, "%Y-%m-%d")
-    if kind == "numeric" and (rng.random() < 0.35 or present[0] == "j"):
+    if kind == "numeric" and (rng.random() < 0.35 or present[0] in ("j", "wk", "isowk")):
         f = s
         shape = present[0]
-        fm = {"dmy": "%d{s}%m{s}%Y", "dm": "%d{s}%m", "my": "%m{s}%Y", "y": "%Y", "ymd": "%Y{s}%m{s}%d", "d": "%d", "dmy2": "%d{s}%m{s}%y", "ym": "%Y{s}%m", "j": "%j"}[shape]
+        fm = {"dmy": "%d{s}%m{s}%Y", "dm": "%d{s}%m", "my": "%m{s}%Y", "y": "%Y", "ymd": "%Y{s}%m{s}%d", "d": "%d", "dmy2": "%d{s}%m{s}%y", "ym": "%Y{s}%m", "j": "%j", "wk": "%Y-W%W-%w", "isowk": "%G-W%V-%u"}[shape]
         sep = next((c for c in s if c in "/.-"), "/")
         fmts = [fm.format(s=sep) + (" %H:%M" if "time" in present else "")]
     t1, t2 = two_clocks(rng)
@@ -265,9 +266,9 @@ def stated_parts(case):
         return {"can_state": can, "ntokens": len(parts)}
     if kind == "numeric":
         shape = present[0]
-        n = {"dmy": 3, "dm": 2, "my": 2, "y": 1, "ymd": 3, "d": 1, "dmy2": 3, "ym": 2, "j": 1}[shape]
-        if shape == "j":
-            return None  # %j states day and month at once
+        if shape in ("j", "wk", "isowk"):
+            return None  # %j states day and month at once; week-number formats are judged by R1-R3 only
+        n = {"dmy": 3, "dm": 2, "my": 2, "y": 1, "ymd": 3, "d": 1, "dmy2": 3, "ym": 2}[shape]
         if shape == "y":
             return {"can_state": {"year"}, "ntokens": 1}
         # short numbers are interchangeable between day / month / two-digit year
